@@ -191,6 +191,10 @@ def ctor_oracle(kind, na, nv, nd, ni, lb, ub, res):
         return 'population size %r != %r' % (res['n_agents'], na)
     if not res['best_distinct']:
         return 'best agent shares storage with an agent'
+    try:
+        [unkey(k) for k in res['space_lb']], [unkey(k) for k in res['space_ub']]
+    except TypeError:
+        return 'the space\'s bounds are not vectors of n_variables numbers: lb %r, ub %r (declared %r / %r)' % (res['space_lb'], res['space_ub'], list(lb), list(ub))
     if [unkey(k) for k in res['space_lb']] != [float(v) for v in lb] or [unkey(k) for k in res['space_ub']] != [float(v) for v in ub]:
         return 'the space\'s bounds %r / %r differ from the declared bounds %r / %r' % (
             [unkey(k) for k in res['space_lb']], [unkey(k) for k in res['space_ub']], list(lb), list(ub))
